@@ -9,6 +9,7 @@ involved: every operation is a transfer function on abstract values.
 from __future__ import annotations
 
 import ast
+import os
 from dataclasses import dataclass, replace
 from typing import Any, Dict, List, Optional, Tuple
 
@@ -160,13 +161,19 @@ class Interp(ModelMixin):
         if isinstance(bound, list):       # defaults evaluation forked (not expected)
             outs0 = bound
         results = []
+        is_gen = self._is_generator(fi)
         for env, s in outs0:
             fr2 = fr.copy()
             fr2.env = env
             s.frames.append(fr2)
+            if is_gen:
+                # generator function: evaluated eagerly, the yielded values collected in order (laziness is not modelled)
+                fr2.env['%gen'] = Ref('list', s.new(ListE('lit', 0, 0, items=(), stages=('generator ' + fi.short,))))
             self.on_enter(fi, s, node)
             for ctl, s2 in self.ex_block(fi.node.body, s):
-                if ctl == NEXT:
+                if is_gen and (ctl == NEXT or (isinstance(ctl, tuple) and ctl[0] == 'ret')):
+                    val = s2.frame.env['%gen']
+                elif ctl == NEXT:
                     val = NoneV(('noret', fi.qualname))
                 elif isinstance(ctl, tuple) and ctl[0] == 'ret':
                     val = ctl[1]
@@ -178,6 +185,50 @@ class Interp(ModelMixin):
                 val, s2 = self.on_return(fi, val, s2, node)
                 results.append((val, s2))
         return self.dedupe(results)
+
+    def _is_generator(self, fi):
+        g = getattr(fi, '_is_gen', None)
+        if g is None:
+            g = False
+            stack = list(fi.node.body)
+            while stack:
+                n = stack.pop()
+                if isinstance(n, (ast.Yield, ast.YieldFrom)):
+                    g = True
+                    break
+                if isinstance(n, (ast.FunctionDef, ast.AsyncFunctionDef, ast.Lambda, ast.ClassDef)):
+                    continue
+                stack.extend(ast.iter_child_nodes(n))
+            fi._is_gen = g
+        return g
+
+    def ev_Yield(self, e, st):
+        res = []
+        for v, s in (self.ev(e.value, st) if e.value is not None else [(NoneV(), st)]):
+            if isinstance(v, Raise):
+                res.append((v, s))
+                continue
+            self._internal_append = True
+            try:
+                self.list_method(s.frame.env['%gen'], 'append', [v], {}, s, e)
+            finally:
+                self._internal_append = False
+            res.append((NoneV(), s))
+        return res
+
+    def ev_YieldFrom(self, e, st):
+        res = []
+        for v, s in self.ev(e.value, st):
+            if isinstance(v, Raise):
+                res.append((v, s))
+                continue
+            self._internal_append = True
+            try:
+                outs = self.list_method(s.frame.env['%gen'], 'extend', [v], {}, s, e)
+            finally:
+                self._internal_append = False
+            res.extend((NoneV() if not isinstance(r, Raise) else r, s2) for r, s2 in outs)
+        return res
 
     def on_enter(self, fi, st, node):
         pass
@@ -736,7 +787,16 @@ class Interp(ModelMixin):
                 rounds += 1
                 self.stats['rounds'] += 1
                 if rounds > MAX_ROUNDS:
+                    if os.environ.get('VERIF_DEBUG_LOOP'):
+                        import difflib
+                        import pprint
+                        ks = [pprint.pformat(s.key(), width=160).splitlines() for _, s in work[:1]] + [prev_dbg]
+                        print('LOOP-DEBUG', self.site(node, st)[:3], len(work), 'states; diff of one state against the previous round:')
+                        print('\n'.join(list(difflib.unified_diff(ks[1], ks[0], lineterm='', n=1))[:80]))
                     raise AnalysisError(f'loop at {self.site(node, st)[:2]} did not stabilise after {MAX_ROUNDS} rounds')
+                if os.environ.get('VERIF_DEBUG_LOOP') and rounds == MAX_ROUNDS and work:
+                    import pprint
+                    prev_dbg = pprint.pformat(work[0][1].key(), width=160).splitlines()
                 nxt = []
                 for count, s in work:
                     if count >= spec.lo:
